@@ -58,8 +58,8 @@ CHECKS = {
             "Trusted: vendored oracle data (/verif/oracle, provenance inside), equality-atom string encoding, engine, solvers. Names no oracle lists are not compared.",
             "SMT queries with symbolic keys over the interpreted real tables (go/ssa symbolic execution, z3 + cvc5)"),
     "C13": (MC, "4 (C13)",
-            "Determinism: the real compiler is run twice per shape under opposite iteration orders of every map it ranges over and SMT decides term-wise equality of the instruction lists for all values. Side effects and races: a write monitor over everything reachable from the caller's policy (spare capacity, slices shared with a twin) and over all package state must stay empty on every path of Assemble, GetInfo and the text conversions; with private write sets the DRF argument gives race freedom and independence for any number of goroutines - interleavings are reduced away, not explored. Text forms of symbolic flag/action words are equal under both map orders.",
-            "Trusted: the engine's write monitor and map-order model; the DRF reduction (Go memory model). Native replay runs the compilations concurrently under the race detector.",
+            "Determinism: the real compiler is run twice per shape under opposite iteration orders of every map it ranges over and SMT decides term-wise equality of the instruction lists for all values. Side effects and races: a write monitor over everything reachable from the caller's policy (spare capacity, slices shared with a twin) and over all package state must stay empty on every path of Assemble, GetInfo and the text conversions; with private write sets the DRF argument gives race freedom and independence for any number of goroutines - interleavings are reduced away, not explored. Memory handed to a sync.Pool is covered by the same reduction: an access of the former owner after Put that conflicts with an access of the next owner after Get is reported (the two are unordered under another schedule). Text forms of symbolic flag/action words are equal under both map orders.",
+            "Trusted: the engine's write monitor and map-order model; the DRF reduction (Go memory model). Native replay runs the compilations concurrently under the race detector, then 40 more times alternating on one processor (so that pooled objects change hands).",
             "SMT-based symbolic execution with map order as an input plus a write-set (non-interference) analysis (z3 + cvc5)"),
     "C14": (MC, "4 (C14)",
             "Parsers/printers: the real Action.Unpack, Operation.Unpack, String and MarshalText are executed symbolically on an arbitrary string (equality atom; case through an uninterpreted lower()) under both iteration orders of the name map; SMT decides 'Unpack succeeds with a iff lower(s) is a's documented name' for ALL strings (so no unknown spelling maps to any action, in particular not to allow), round trips for all named values, and that unknown values print no documented name. Text forms: only key agreement is decided - config, yaml and json tag of every exported field of the four policy structs (read from go/types of the current source) must coincide; a disagreement is confirmed by a native marshal/load round trip. Both parsers are additionally run on byte-vector strings (every length up to 14 / 16 seven-bit ASCII characters), which decides code that inspects length, prefixes or single characters - bounded, unlike the atom encoding.",
@@ -74,8 +74,8 @@ CHECKS = {
             "Stubs for flag, go-ucfg, exec, os.Exit (contract: fail or deliver). That the filter survives execve and what the target observes is kernel behaviour, outside.",
             "symbolic execution of the real main() over all environment-failure combinations (go/ssa engine; z3 + cvc5 for path feasibility)"),
     "C16": (MC, "4 (C16)",
-            "The real Parse/parseX86_64 run over L <= 2/3 symbolic lines delivered by a model scanner that may stop anywhere with or without an error. A line is an SMT string constrained only by regular-language memberships derived from the literals the current source uses; z3 5.1 decides each path's feasibility and obligations for ALL line contents: no panic, read failure => error and no partial result, findSyscallNum is only given lines of the current function, every reported syscall is in the table under its name, appended lines never remove earlier results. The scanner model stops with no error, an arbitrary error, or bufio.ErrTooLong (Scanner.Buffer moves the limit, it does not remove it).",
-            "findSyscallNum (regexp + ParseInt) is summarised as 'arbitrary number or error'; alphabet = printable ASCII + space + tab; L bounded (no induction over the number of lines). String obligations are decided by z3 5.1.0 alone (no cross-check).",
+            "The real Parse/parseX86_64 run over L <= 2/3 symbolic lines delivered by a model scanner that may stop anywhere with or without an error. A line is an SMT string constrained only by regular-language memberships derived from the literals the current source uses; z3 5.1 decides each path's feasibility and obligations for ALL line contents: no panic, read failure => error and no partial result, findSyscallNum is only given lines of the current function and ALL of them since the previous syscall site (window completeness), every reported syscall is in the table under its name, appended lines never remove earlier results. Long listings: the symbolic lines are additionally separated by concrete filler instructions (600 in quick; 127..10000 at sizes around powers of two, and three symbolic lines 260 apart, in thorough), so windows, counters and buffers of a few hundred or thousand lines are crossed. The scanner model stops with no error, an arbitrary error, or bufio.ErrTooLong (Scanner.Buffer moves the limit, it does not remove it).",
+            "findSyscallNum (regexp + ParseInt) is summarised as 'arbitrary number or error'; alphabet = printable ASCII + space + tab; L symbolic lines bounded (no induction over the number of lines; filler lines are concrete). String obligations are decided by z3 5.1.0 alone (no cross-check).",
             "SMT string/regular-language solving over symbolic lines with the real parser executed from go/ssa (z3 5.1)"),
     "C17": (MC, "4 (C17)",
             "The real doObjdump is executed twice over a model file system whose file contents are SMT strings. Run 1 may crash at any stub call (every file open for writing keeps a symbolic-length prefix of what was written) or its disassembler may fail after a prefix; run 2 is uninterrupted, for the same or another binary. z3 decides for all hashes, disassembly texts and crash prefixes: whenever run 2 returns a path, the file there is hash + newline + the complete disassembly; otherwise it returned an error. 'Same profile as a cold cache' follows because the profile is a function of that file. Disassembler failures are an *exec.ExitError with any exit code (-1: killed by a signal) or another error. The cache key is covered by a lemma on the real hashBinary (model hash, failing open/read): without an error it returns the digest of the whole binary or nothing of 64 characters; the two-run instances cover any 64-hex-digit key and the empty key in either run.",
